@@ -12,6 +12,7 @@ import random
 from simkit.core import EventLog, HarnessError, ddmin_lists, digest
 
 PROP = "C11"
+ISOLATE_RUNS = True  # every run in a forked copy of the worker (simkit.core.run_one)
 LEVEL = "exploration"
 BUDGET_S = {"quick": 300, "thorough": 1500}
 CHUNK = 200
@@ -59,6 +60,9 @@ def worker_init() -> None:
     R.regs = regs
     R.SPSDKError = SPSDKError
     R.Endianness = Endianness
+    from spsdk.utils.misc import BinaryPattern
+
+    R.BinaryPattern = BinaryPattern
 
 
 # ----------------------------------------------------------------------------------------------
@@ -524,6 +528,52 @@ class Run:
                 obj.reset_values()
                 m.val = dict(m.reset)
                 changes += 1
+            elif name == "deepcopy":
+                # a deep copy is an object of its own: writes to the copy do not reach the original and vice versa
+                import copy as _copy
+
+                twin = _copy.deepcopy(obj)
+                for site, msg in compare(twin, m, f"{label}: the deep copy"):
+                    self.violation("deepcopy", site, msg)
+                m2 = _copy.deepcopy(m)
+                alt_subs = {u for g in layout.get("groups", []) if g.get("alt_widths") for u in g["sub_regs"]}
+                for r in layout["regs"]:
+                    if r["uid"] in alt_subs:
+                        continue  # (what a reset means for a group with alternative widths is not stated; it stays zero)
+                    nv = (m.val[r["uid"]] ^ ((1 << r["width"]) - 1)) if op.get("flip") else 0
+                    try:
+                        find_reg(twin, r["uid"]).set_value(nv, raw=True)
+                        m2.val[r["uid"]] = nv
+                    except R.SPSDKError:
+                        pass
+                if op.get("reset_copy"):
+                    twin.reset_values()
+                    m2.val = dict(m2.reset)
+                for site, msg in compare(obj, m, f"{label}: the original after the copy was written"):
+                    self.violation("deepcopy", "original:" + site, msg)
+                for site, msg in compare(twin, m2, f"{label}: the copy after it was written"):
+                    self.violation("deepcopy", "copy:" + site, msg)
+                self.probe("deepcopy")
+            elif name == "export_pattern":
+                # the fill pattern belongs to the gaps between registers, never to the bytes of a register
+                data0 = obj.export()
+                data1 = obj.export(pattern=R.BinaryPattern("ones"))
+                if len(data0) != len(data1):
+                    self.violation("export-pattern", "length", f"{label}: the export has {len(data1)} bytes with a fill pattern and {len(data0)} without")
+                else:
+                    base = len(data0) - max(r["offset"] + r["width"] // 8 for r in layout["regs"])  # (0: the image starts at offset 0)
+                    covered = set()
+                    for r in layout["regs"]:
+                        covered.update(range(r["offset"], r["offset"] + r["width"] // 8))
+                    bad = [i for i in range(len(data0)) if (i in covered and data0[i] != data1[i]) or (i not in covered and base == 0 and data1[i] != 0xFF)]
+                    if bad:
+                        self.violation("export-pattern", "register-bytes" if bad[0] in covered else "gap-bytes", f"{label}: byte {bad[0]} of the export is {data1[bad[0]]:#04x} with the fill pattern 'ones' and {data0[bad[0]]:#04x} without ({'inside a register' if bad[0] in covered else 'in a gap'})")
+                    twin = make_registers(layout)
+                    twin.parse(data1)
+                    if not any(g.get("alt_widths") for g in layout.get("groups", [])):
+                        for site, msg in compare(twin, m, f"{label}: twin after parse(export(pattern=ones))"):
+                            self.violation("export-pattern", "parse:" + site, msg)
+                self.probe("export_pattern")
             elif name == "export_parse":
                 data = obj.export()
                 twin = make_registers(layout)
@@ -799,7 +849,7 @@ def gen_val(rng: random.Random) -> list:
 
 
 def gen_op(rng: random.Random) -> dict:
-    name = rng.choice(["reg_set"] * 5 + ["group_set"] * 3 + ["alt_set"] * 2 + ["bf_set"] * 6 + ["bf_enum"] * 4 + ["reg_reset", "reset_all"] + ["export_parse"] * 2 + ["parse_short"] * 2 + ["config_roundtrip"] * 2 + ["query"] * 5)
+    name = rng.choice(["reg_set"] * 5 + ["group_set"] * 3 + ["alt_set"] * 2 + ["bf_set"] * 6 + ["bf_enum"] * 4 + ["reg_reset", "reset_all"] + ["export_parse"] * 2 + ["export_pattern", "deepcopy"] + ["parse_short"] * 2 + ["config_roundtrip"] * 2 + ["query"] * 5)
     o: dict = {"op": name}
     if name == "reg_set":
         o.update(reg=rng.randrange(64), val=gen_val(rng), raw=rng.random() < 0.5)
@@ -815,6 +865,8 @@ def gen_op(rng: random.Random) -> dict:
         o.update(reg=rng.randrange(64))
     elif name == "parse_short":
         o.update(r=rng.randrange(1 << 30), inside=rng.random() < 0.6)
+    elif name == "deepcopy":
+        o.update(flip=rng.random() < 0.6, reset_copy=rng.random() < 0.3)
     elif name == "config_roundtrip":
         o.update(diff=rng.random() < 0.4)
     elif name == "query":
@@ -824,6 +876,19 @@ def gen_op(rng: random.Random) -> dict:
 
 def gen_plan(family: str, i: int, rng: random.Random, tier: str) -> dict:
     return {"layout": gen_layout(rng), "ops": [gen_op(rng) for _ in range(rng.randint(1, 40))]}
+
+
+_WARM = False
+
+
+def warm_up() -> None:
+    """Runs are executed in forked copies of the worker: whatever is initialised lazily on first use is done once, here."""
+    global _WARM
+    if _WARM:
+        return
+    _WARM = True
+    for i in range(40):
+        execute(gen_plan("hist", i, random.Random(5000 + i), "quick"))
 
 
 def families(tier: str):
